@@ -277,7 +277,7 @@ func (p *parser) parseExpr() Expr {
 		t := p.next()
 		name := p.ident()
 		p.expectOp(":=")
-		v := p.parseExpr()
+		v := p.parseAdd()
 		if !p.acceptID("in") {
 			p.fail("expected 'in'")
 		}
@@ -619,26 +619,49 @@ func (p *parser) parseIdentList() []string {
 
 // parseFuncKey parses names such as  (*Elements).Index  Elements.Len  resolveNode
 // pkg.Func$1  pkg.(*T).M  strings.Trim
-func (p *parser) parseFuncKey() string {
+func (p *parser) parsePath() string {
 	var sb strings.Builder
 	for {
 		t := p.peek()
-		if t.k == "id" && !clauseKeywords[t.s] {
+		if t.k == "id" && (!clauseKeywords[t.s] || p.toks[p.i+1].s == "." || p.toks[p.i+1].s == "/") {
 			sb.WriteString(p.next().s)
-		} else if t.k == "op" && t.s == "(" && p.toks[p.i+1].s == "*" {
-			p.next()
-			p.next()
-			sb.WriteString("(*" + p.qualIdent() + ")")
-			p.expectOp(")")
+		} else if t.k == "int" && sb.Len() > 0 {
+			sb.WriteString(p.next().s)
 		} else {
 			break
 		}
-		if p.isOp(".") || p.isOp("/") {
+		if (p.isOp(".") || p.isOp("/") || p.isOp("-")) && (p.toks[p.i+1].k == "id" || p.toks[p.i+1].k == "int") && !clauseKeywords[p.toks[p.i+1].s] {
 			sb.WriteString(p.next().s)
 			continue
 		}
 		break
 	}
+	return sb.String()
+}
+
+func (p *parser) parseFuncKey() string {
+	var sb strings.Builder
+	if p.isOp("(") && (p.toks[p.i+1].s == "*" || p.toks[p.i+1].k == "id") {
+		// receiver: (*pkg.T) or (pkg.T); but not a parameter list "(a, b)"
+		save := p.i
+		p.next()
+		star := p.acceptOp("*")
+		path := p.parsePath()
+		if p.isOp(")") && p.toks[p.i+1].s == "." {
+			p.next()
+			if star {
+				sb.WriteString("(*" + path + ")")
+			} else {
+				sb.WriteString("(" + path + ")")
+			}
+			p.expectOp(".")
+			sb.WriteString(".")
+		} else {
+			p.i = save
+			p.fail("expected function name")
+		}
+	}
+	sb.WriteString(p.parsePath())
 	if sb.Len() == 0 {
 		p.fail("expected function name")
 	}
